@@ -214,6 +214,40 @@ theorem trait_defaults_conservative :
       [(false, false, false, 10), (false, true, false, 10), (true, false, false, 10), (true, true, false, 10)] ∧
     Generated.bareOpFlags = ⟨false, false, false, 10⟩ := by decide
 
+/-! ### Census obligation (round 5; the tables are re-read from the running code by `ibh tables` on every run)
+
+"Steps are re-ordered only where that cannot change the output" rests on WHICH operators claim the reorder
+contract. The crate has twelve `DynOp` implementations; every public single-operator builder is probed for the flags
+of what it inserts: the eight of `opTable` (C02), the six validation builders of `validateOpFlags` (C17) and the
+thirteen helper builders of `helperOpTable` (windowing, timestamps, `try_*`, side inputs, debug taps). A builder that
+starts claiming the contract — a validator "that drops rows like a filter", a windowing step "that only touches the
+value side" — changes a table and one of these stops building. -/
+
+/-- none of the crate's helper builders inserts a movable operator -/
+theorem helper_builders_not_movable :
+    ∀ e ∈ Generated.helperOpTable, e.2.movable = false := by decide
+
+/-- … nor does any validation builder (rows `(name, key_preserving, value_only, reorder_safe, cost)`) -/
+theorem validation_builders_not_movable :
+    ∀ r ∈ Generated.validateOpFlags, (r.2.2.1 && r.2.1 && r.2.2.2.1) = false := by decide
+
+/-- the movable builders of the whole crate are exactly the three value builders, with cost hints 3, 1, 2 -/
+theorem crate_movable_builders :
+    ((Generated.opTable ++ Generated.helperOpTable).filter (fun e => e.2.movable)).map (fun e => (e.1, e.2.cost))
+      = [("map_values", 3), ("filter_values", 1), ("map_values_batches", 2)] := by decide
+
+/-- hence a fused block that holds what a helper builder inserts — whatever else it holds — is left as written -/
+theorem helper_pinned (ops : List (DynOp P))
+    (h : ∃ op ∈ ops, ∃ e ∈ Generated.helperOpTable, movable op = e.2.movable) : reorderBlock ops = ops := by
+  obtain ⟨op, hop, e, he, hm⟩ := h
+  apply reorderBlock_of_not_all_movable
+  rw [List.all_eq_false]
+  exact ⟨op, hop, by simp [hm, helper_builders_not_movable e he]⟩
+
+/-- non-vacuity: the census is not empty and covers the keyed windowing step -/
+example : Generated.helperOpTable.length ≥ 13 ∧
+    (Generated.helperOpTable.any fun e => e.1 == "key_by_window:keyed") = true := by decide
+
 end IB
 
 /-! # Part 2 — semantics: exec(optimise(chain)) == exec(chain) -/
